@@ -178,6 +178,22 @@ def check_c09(tier, seed, log=print):
         else:
             if 'leaf' in m:
                 exp[m['leaf']] = ('explicit', m['explicit']) if 'explicit' in m else ('complexity', None)
+            for lf_ in m.get('complexity_leaves', []):
+                exp[lf_] = ('complexity', None)
+            # each written pattern is a leaf of its own, in order, with its own source (the default priority is that of the
+            # pattern as written, not of whatever several patterns may have been combined into)
+            if 'leaf_sources' in m:
+                got_src = {}
+                for l_ in cap.dump:
+                    if l_.startswith('SRC '):
+                        t_ = l_.split(' ')
+                        got_src[int(t_[1])] = bytes.fromhex(t_[2]).decode('utf-8', 'replace') if len(t_) > 2 else ''
+                want_src = m['leaf_sources']
+                if [got_src.get(k_) for k_ in range(len(cap.leaves))] != want_src:
+                    run.violation('priority', dict(definition=c['src'], leaves_written=want_src, leaves_of_the_derive=[got_src.get(k_) for k_ in range(len(cap.leaves))],
+                                                   derive_priorities=[l_[0] for l_ in cap.leaves],
+                                                   what='the leaves of the derive are not the patterns as written, one leaf each: a default priority is then not that of the pattern it belongs to'),
+                                  key='leafsrc|' + c['src'])
             if 'token_leaf' in m and m['token_leaf'] < len(cap.leaves):
                 exp[m['token_leaf']] = ('token', 2 * m['token_len'])
         for li, (why, val) in exp.items():
